@@ -145,6 +145,9 @@ std::size_t session_t::read_data(const string& master_account)
     }
   }
 
+  std::size_t total_errors = 0;
+  string      last_error;
+
   foreach (const path& pathname, HANDLER(file_).data_files) {
     if (pathname == "-" || pathname == "/dev/stdin") {
       // To avoid problems with stdin and pipes, etc., we read the entire
@@ -171,12 +174,21 @@ std::size_t session_t::read_data(const string& master_account)
     try {
       xact_count += journal->read(parsing_context, HANDLER(hashes_).hash_type);
     }
+    catch (const error_count& errors) {
+      // Keep reading the remaining files, so that the errors in each of
+      // them are reported too; the total is thrown once all are read.
+      total_errors += errors.count;
+      last_error    = errors.message;
+    }
     catch (...) {
       parsing_context.pop();
       throw;
     }
     parsing_context.pop();
   }
+
+  if (total_errors > 0)
+    throw error_count(total_errors, last_error);
 
   DEBUG("ledger.read", "xact_count [" << xact_count
         << "] == journal->xacts.size() [" << journal->xacts.size() << "]");
